@@ -47,7 +47,10 @@ def sigs : List (List (PKind × List String)) := [
   [(.iface, ["int", "i64", "str", "ints", "nilints", "map", "nilmap", "st", "impl", "nil", "f64", "bool", "u8", "bytes", "res"]),
    (.iface, ["impl", "nil"])],
   [(.resultPtr, ["res", "nil"]), (.iface, ["res", "nil"]), (.other, ["i64"])],
-  [(.other, ["f64"]), (.other, ["bool"]), (.other, ["u8"]), (.other, ["bytes", "nil"])]]
+  [(.other, ["f64"]), (.other, ["bool"]), (.other, ["u8"]), (.other, ["bytes", "nil"])],
+  [(.other, ["ints", "nilints", "nil"]), (.other, ["ints", "nilints", "nil"]), (.other, ["ints", "nilints", "nil"])],
+  [(.other, ["st"]), (.other, ["st"]), (.other, ["map", "nilmap", "nil"]), (.other, ["map", "nilmap", "nil"])],
+  [(.other, ["pst", "nilpst", "nil"]), (.other, ["pst", "nilpst", "nil"]), (.other, ["bytes", "nil"]), (.other, ["bytes", "nil"])]]
 
 /-- an untyped nil passed for a slice, map or pointer parameter is the parameter's typed nil
 (func.go: `isNilAssignable`; invocation.go: the typed zero value is encoded) -/
